@@ -29,41 +29,50 @@
 #include <pthread.h>
 #include "env/fd.h"
 
+/* The ghosts are grouped in three objects so that an assigns clause names few targets (DFCC's cost grows with the number
+ * of targets of caller and callee):  xv_epg -- interest list + record of epoll_ctl/epoll_create1;  xv_evg -- eventfd flags +
+ * record of eventfd();  xv_lkg -- lock state.  The field macros below keep the individual names. */
 struct xv_ep_entry { _Bool in; uint32_t mask; };
-struct xv_ep_table { struct xv_ep_entry e[XV_NFD]; };
-struct xv_ep_table xv_ept;
-#define xv_ep xv_ept.e
-int xv_epfd;                       /* the epoll instance the ghost list belongs to (assigned by epoll_create1 only) */
-int xv_epcreate_calls;
-int xv_epctl_calls;   int xv_epctl_op, xv_epctl_fd, xv_epctl_ret, xv_epctl_errno;
-int xv_eventfd_calls; unsigned xv_eventfd_init; int xv_eventfd_flags;
-struct xv_evfd_table { _Bool readable[XV_NFD]; };
-struct xv_evfd_table xv_evt;       /* slot is an eventfd with a non-zero counter */
-#define xv_evfd_readable xv_evt.readable
+struct xv_ep_ghost { struct xv_ep_entry e[XV_NFD]; int epfd; int epcreate_calls; int epctl_calls, epctl_op, epctl_fd, epctl_ret, epctl_errno; };
+struct xv_ev_ghost { _Bool readable[XV_NFD]; int eventfd_calls; unsigned eventfd_init; int eventfd_flags; };
+struct xv_lk_ghost { _Bool held; int acqs, rels; const void *obj; };
+struct xv_ep_ghost xv_epg;
+struct xv_ev_ghost xv_evg;
+struct xv_lk_ghost xv_lkg;
+#define xv_ep xv_epg.e
+#define xv_epfd xv_epg.epfd                     /* the epoll instance the ghost list belongs to (assigned by epoll_create1 only) */
+#define xv_epcreate_calls xv_epg.epcreate_calls
+#define xv_epctl_calls xv_epg.epctl_calls
+#define xv_epctl_op xv_epg.epctl_op
+#define xv_epctl_fd xv_epg.epctl_fd
+#define xv_epctl_ret xv_epg.epctl_ret
+#define xv_epctl_errno xv_epg.epctl_errno
+#define xv_evfd_readable xv_evg.readable        /* slot is an eventfd with a non-zero counter */
+#define xv_eventfd_calls xv_evg.eventfd_calls
+#define xv_eventfd_init xv_evg.eventfd_init
+#define xv_eventfd_flags xv_evg.eventfd_flags
+#define xv_lock_held xv_lkg.held
+#define xv_lock_acqs xv_lkg.acqs
+#define xv_lock_rels xv_lkg.rels
+#define xv_lock_obj xv_lkg.obj
 
-_Bool xv_lock_held;  int xv_lock_acqs, xv_lock_rels;  const void *xv_lock_obj;
-
-struct xv_ep_table nondet_xv_ep_table(void);
-struct xv_evfd_table nondet_xv_evfd_table(void);
+struct xv_ep_ghost nondet_xv_ep_ghost(void);
+struct xv_ev_ghost nondet_xv_ev_ghost(void);
+struct xv_lk_ghost nondet_xv_lk_ghost(void);
 /* every harness using this file calls xv_fd_havoc(); xv_epoll_havoc(); right after xv_ghost_havoc() */
 static inline void xv_epoll_havoc(void)
 {
-    xv_ept = nondet_xv_ep_table(); xv_evt = nondet_xv_evfd_table();
-    xv_epfd = nondet_int(); xv_epcreate_calls = nondet_int();
-    xv_epctl_calls = nondet_int(); xv_epctl_op = nondet_int(); xv_epctl_fd = nondet_int(); xv_epctl_ret = nondet_int();
-    xv_epctl_errno = nondet_int();
-    xv_eventfd_calls = nondet_int(); xv_eventfd_init = nondet_uint(); xv_eventfd_flags = nondet_int();
-    xv_lock_held = nondet_bool(); xv_lock_acqs = nondet_int(); xv_lock_rels = nondet_int(); xv_lock_obj = nondet_cptr();
+    xv_epg = nondet_xv_ep_ghost(); xv_evg = nondet_xv_ev_ghost(); xv_lkg = nondet_xv_lk_ghost();
 }
 
 #define XV_EP_IN(fd) (XV_FD_OURS(fd) && xv_ep[fd].in)
 #define XV_EP_GHOST_RANGE (XV_CNT_OK(xv_epcreate_calls) && XV_CNT_OK(xv_epctl_calls) && XV_CNT_OK(xv_eventfd_calls) && \
                            XV_CNT_OK(xv_lock_acqs) && XV_CNT_OK(xv_lock_rels))
 
-#define XV_EPCTL_ASSIGNS xv_errno, xv_epctl_calls, xv_epctl_op, xv_epctl_fd, xv_epctl_ret, xv_epctl_errno, __CPROVER_object_whole(&xv_ept)
-#define XV_EPCREATE_ASSIGNS xv_errno, xv_epcreate_calls, xv_epfd, __CPROVER_object_whole(&xv_ept), __CPROVER_object_whole(&xv_evt), XV_FDT_ASSIGNS
-#define XV_EVENTFD_ASSIGNS xv_errno, xv_eventfd_calls, xv_eventfd_init, xv_eventfd_flags, __CPROVER_object_whole(&xv_ept), __CPROVER_object_whole(&xv_evt), XV_FDT_ASSIGNS
-#define XV_LOCK_ASSIGNS xv_lock_held, xv_lock_acqs, xv_lock_rels, xv_lock_obj
+#define XV_EPCTL_ASSIGNS xv_errno, __CPROVER_object_whole(&xv_epg)
+#define XV_EPCREATE_ASSIGNS xv_errno, __CPROVER_object_whole(&xv_epg), __CPROVER_object_whole(&xv_evg), XV_FDT_ASSIGNS
+#define XV_EVENTFD_ASSIGNS xv_errno, __CPROVER_object_whole(&xv_epg), __CPROVER_object_whole(&xv_evg), XV_FDT_ASSIGNS
+#define XV_LOCK_ASSIGNS __CPROVER_object_whole(&xv_lkg)
 
 /* TRUSTED(kernel) epoll_create1(2) */
 int epoll_create1(int flags)
